@@ -132,3 +132,12 @@ Example regression_enum_any :
   gen code_variant o_any1 sch_anyl ann_anyl 1 [1; 0; 1; 2] = Ok any_regr /\
   rapid_in_range code_variant o_any1 sch_anyl ann_anyl 1 any_regr = true.
 Proof. vm_compute. repeat split; reflexivity. Qed.
+
+(* the tape-driven generator model produces values inside the range (and well typed) on sample tapes
+   over a schema with recursion through lists, bool-keyed maps (revisited entries), a oneof, enum,
+   Timestamp/Duration/FieldMask and Any (accepts_interface, repeated, Any inside Any to the nesting
+   limit), 4 option sets x 3 tapes; a test of the range predicate against over-tightness, not a proof *)
+Example gen_in_range_samples :
+  ann_ok sch_demo ann_demo = true /\
+  forallb (fun o => forallb (sample_ok code_variant o) [1; 2; 3]) demo_opts = true.
+Proof. destruct RapidGenProofs.gen_in_range_samples as (A & B & _). split; [exact A|exact B]. Qed.
